@@ -640,7 +640,7 @@ def remove_trailing_whitespace_and_comments(lTokens):
             lMyTokens.reverse()
             return lMyTokens
     else:
-        return lTokens
+        return []
 
 
 def remove_leading_whitespace_and_comments(iToken, lTokens):
@@ -650,7 +650,7 @@ def remove_leading_whitespace_and_comments(iToken, lTokens):
         else:
             return iToken + iIndex + 1, lTokens[iIndex:]
     else:
-        return iToken, lTokens
+        return iToken + len(lTokens) + 1, []
 
 
 def remove_all_trailing_whitespace(lTokens):
